@@ -332,6 +332,7 @@ def run(chk, prog):
 
     # ---- 2d. the index a choice is saved with is fixed when the choice is generated
     function_name_looked_up_exactly(chk, prog)
+    continue_refused_exactly_when_it_cannot(chk, prog, tr)
     R6 = 'C09.choice-index-fixed-at-generation'
     chk.rule(R6, 'Story::get_current_choices (also called by a refused choose_choice_index) rewrites Choice::index; the '
              'index is part of the save. The rewrite changes nothing only if the index was already right: the function '
@@ -481,3 +482,70 @@ def fields_of_place_names(s):
         if 'pl' in rv:
             pl_(rv['pl'])
     return out
+
+
+def continue_refused_exactly_when_it_cannot(chk, prog, tr):
+    """Seed C09-6: the refusal at the top of continue_internal tested the pointer alone."""
+    R = 'C09.continue-refused-exactly-when-it-cannot'
+    chk.rule(R, 'A continue the host was told not to make (can_continue() is false) is refused before anything is changed: '
+             'in continue_internal, on every path on which no time-limited continue is in progress at entry, the first '
+             'change of the story (assignment, mutator or writing callee) is reached only with the result of '
+             'can_continue() known to be true - the same predicate the host reads through Story::can_continue, which '
+             'hands out StoryState::can_continue, which in turn reads both the pointer and the pending errors. A guard that '
+             'tests less (the pointer alone) lets a call through after an unhandled error and a flow switch, jump or load; '
+             'it then runs a step, records a second error, and only then fails.')
+    from analysis.guards import GuardFlow
+    from analysis.effects import Effects
+    ci = prog.fn('Story::continue_internal')
+    if not chk.anchor(R, 'Story::continue_internal', ci):
+        return
+
+    def atom(desc):
+        if desc == ('field', 'Story::async_continue_active'):
+            return 'async'
+        if desc[0] == 'call' and desc[1] in ('Story::can_continue', 'StoryState::can_continue'):
+            return 'can'
+        if desc[0] == 'call' and desc[1] in ('StoryState::has_error', 'Story::has_error'):
+            return 'err'
+        if desc[0] == 'call' and desc[1] == 'Pointer::is_null':
+            return 'null'
+        return None
+    gf = GuardFlow(prog, ci, atom, tracer=tr, assume={'async': False})
+    gf.run()
+    ef = Effects(prog, tracer=tr)
+    g = cfg(ci)
+    wblocks = {}
+    for e in ef.events(ci):
+        fields = ef.event_fields(ci, e)
+        if fields:
+            wblocks.setdefault(e['bb'], e['what'])
+    if not chk.anchor(R, 'a change of the story in continue_internal', sorted(wblocks)):
+        return
+    # first changes: reachable from the entry without passing another change
+    first = [b for b in sorted(wblocks) if b == 0 or g.path([0], lambda x, b=b: x == b, avoid=[w for w in wblocks if w != b])]
+    chk.floor(R, 'first changes of the story examined', len(first), 1)
+    for b in first:
+        vals = gf.valuations_at(b, ['can', 'err', 'null'])
+        bad = [v for v in vals if not (v.get('can') is True or (v.get('err') is False and v.get('null') is False))]
+        chk.decide(R, chk.key(R, 'continue_internal', 'first-change', wblocks[b].replace(' ', '_')[:60]), bool(vals) and not bad,
+                   'reached only with can_continue() == true when no time-limited continue is in progress',
+                   'continue_internal reaches its first change of the story (%s) on a path on which no time-limited continue '
+                   'was in progress and can_continue() was not found true (%s): a call the host was told not to make is not '
+                   'refused up front - it changes the story and fails later' % (wblocks[b], bad[:2]), ci.loc(b))
+    # the predicate the host reads is the one tested
+    pub = prog.fn('Story::can_continue')
+    st = prog.fn('StoryState::can_continue')
+    if chk.anchor(R, 'Story::can_continue', pub) and chk.anchor(R, 'StoryState::can_continue', st):
+        inner = [callee_short(t) for bb, t in pub.calls()]
+        chk.decide(R, chk.key(R, 'Story::can_continue', 'hands-out-the-state-predicate'),
+                   'StoryState::can_continue' in inner and not [c for c in inner if c not in (
+                       'StoryState::can_continue', 'Story::get_state', 'Story::get_state_mut')],
+                   'Story::can_continue is StoryState::can_continue',
+                   'Story::can_continue no longer simply hands out StoryState::can_continue (calls: %s): the predicate the '
+                   'host checks and the one continue_internal refuses by may differ' % inner, pub.loc(0))
+        sc = {callee_short(t) for bb, t in st.calls()}
+        chk.decide(R, chk.key(R, 'StoryState::can_continue', 'pointer-and-errors'),
+                   'Pointer::is_null' in sc and 'StoryState::has_error' in sc,
+                   'reads the pointer and the pending errors',
+                   'StoryState::can_continue no longer consults both Pointer::is_null and StoryState::has_error (calls: %s): '
+                   'after an unhandled error the story would still claim it can continue' % sorted(sc), st.loc(0))
